@@ -570,6 +570,8 @@ def gen_fsm_case(r, run_model, nsteps=None, good_tail=0, cache_ver=None, faults=
         f = r.choice(faults or (FAULTS + ["good"] * 12))
         used.append(f)
         ansver = min(cver, qver)
+        if f in ("dup_announce", "unknown_withdraw", "eod_session", "interrupted_reload", "truncated") and r.random() < 0.7:
+            cache.mutate()       # the spoiled answer carries a real delta: whatever the client keeps of it (records, serial) shows later
         ans = cache.answer(query, ansver, ivals)
         if f == "good":
             tape += ["rx:" + x.hex() for x in chunk(r, ans)]
